@@ -500,7 +500,8 @@ def run(eng, R):
              "the position of a fixed parameter is its own index (row of stored values), the position of a free one is its index minus the number of fixed parameters before it "
              "(row of minimiser arguments), and exactly the free ones are handed to scipy in order")
         ok = src.all_like("_nfix = 0", "_vals = []", "_sel = np.array(self._par_fixed, dtype=int)", "_dyn = np.zeros(shape=(2,) + _cur.shape)", "_dyn[1] = _cur") \
-            or src.all_like("_nfix = 0", "_vals = []", "_sel = np.array(self._par_fixed, dtype=int)", "_dyn = np.zeros(shape=(2,) + %s.shape)" % PV, "_dyn[1] = %s" % PV)
+            or src.all_like("_nfix = 0", "_vals = []", "_sel = np.array(self._par_fixed, dtype=int)", "_dyn = np.zeros(shape=(2,) + %s.shape)" % PV, "_dyn[1] = %s" % PV) \
+            or src.all_like("_nfix = 0", "_vals = []", "_sel = np.array(self._par_fixed, dtype=int)", "_dyn = np.zeros(shape=(2,) + self.parameter_values.shape)", "_dyn[1] = self.parameter_values")
         # (the stored values may be read into a local of their own for the table: what counts is that it is the current parameter values)
         for ph in ("_cur",):
             b = src._binding.get(ph)
